@@ -25,7 +25,7 @@ ASSUMPTIONS = [
     'four-column bin edges are centre +/- width/2 in wavelength, reported as 10000/edge in ascending wavenumber; three-column edges are wavelength mid-points (ends mirrored)',
     'binner alignment judged with the C05 overlap-mean reference on a fine native grid (rtol 1e-9)',
 ]
-REQUIRED = {'perm:extremes-at-the-ends': 0.15, 'tied-wavelengths': 0.015, 'source:array': 0.2, 'source:text': 0.1, 'source:hdf5-class': 0.08, 'source:hdf5-func': 0.08,
+REQUIRED = {'binner:partial-coverage': 0.2, 'rows:integer-array': 0.06, 'perm:extremes-at-the-ends': 0.15, 'tied-wavelengths': 0.015, 'source:array': 0.2, 'source:text': 0.1, 'source:hdf5-class': 0.08, 'source:hdf5-func': 0.08,
             'cols:4': 0.3, 'cols:3': 0.05, 'permuted': 0.4}
 # coverage-guided extra (thorough tier): pure-Python taurex modules on this property's path, instrumented by atheris
 FUZZ = {'include': ['taurex.data.spectrum', 'taurex.binning', 'taurex.util.util', 'taurex.util.hdf5'], 'runs': 20000, 'workers': 4}
@@ -46,7 +46,9 @@ def _case(draw):
             'wfac': wfac, 'perm': perm, 'uniform': draw(st.sampled_from([False, False, False, True])),
             'perm_kind': draw(st.sampled_from(['random', 'ends-descending', 'random', 'ends-ascending'])),
             # two rows sharing exactly the same wavelength (two instruments reporting the same point)
-            'tie': draw(st.sampled_from([None, None, [draw(S.ints(0, 59)), draw(S.ints(0, 59))]]))}
+            'tie': draw(st.sampled_from([None, None, [draw(S.ints(0, 59)), draw(S.ints(0, 59))]])),
+            # the rows handed over as an integer array (whole-micron bands, depths and errors in ppm, odd widths)
+            'int_rows': draw(S.pick([False, True, False, False, True]))}
 
 
 def strategy(tier):
@@ -77,7 +79,10 @@ def load(out, case, rows, tmpdir, tag):
     from taurex.util.hdf5 import taurex_hdf5_to_observation
     src = case['source']
     if src == 'array':
-        return cut(out, 'load@array', ArraySpectrum, rows.copy())
+        given = rows.copy()
+        if case.get('int_rows') and tag == 'perm':
+            given = given.astype(np.int64)          # the same numbers; the sorted twin stays float64
+        return cut(out, 'load@array', ArraySpectrum, given)
     if src == 'text':
         fn = os.path.join(tmpdir, tag + '.dat')
         np.savetxt(fn, rows, fmt='%.17e')
@@ -107,6 +112,14 @@ def check(case):
     out.cls('cols:%d' % case['cols'])
     rows = rows_for(case)
     n = rows.shape[0]
+    int_rows = bool(case.get('int_rows')) and src == 'array'
+    if int_rows:
+        out.cls('rows:integer-array')
+        wl_i = 3.0 + 4.0 * np.arange(n)
+        val_i = 100.0 + np.round(50.0 * np.array(case['noise']))
+        err_i = 1.0 + np.round(10.0 * np.array(case['enoise']))
+        wid_i = np.where(np.array(case['wfac']) > 0.5, 3.0, 1.0)
+        rows = np.array([wl_i, val_i, err_i] + ([wid_i] if case['cols'] == 4 else [])).T
     perm = np.array(case['perm'])
     pk = case.get('perm_kind')
     if pk in ('ends-descending', 'ends-ascending') and n >= 4:
@@ -256,6 +269,26 @@ def check(case):
                     out.fail('binner-reuse@%dcol' % case['cols'], 'second native grid, bin %d: %r vs overlap mean %r'
                              % (i, got2[i] if got2.shape == (n,) else got2.shape, val))
                     break
+            # a model whose native grid covers only the upper part of the observation (a retrieval against data reaching
+            # beyond the opacity tables): every bin the model does cover still gets ITS OWN overlap mean, at its own index
+            if n >= 3:
+                out.applies('binner-partial-coverage')
+                cutw = float(wn[n // 2] - 0.25 * w[n // 2])
+                keep = nat > cutw
+                if keep.sum() >= 3 and keep.sum() < len(nat):
+                    out.cls('binner:partial-coverage')
+                    nat3, f3 = nat[keep], f[keep]
+                    res3 = cut(out, 'bindown', binner.bindown, nat3.copy(), f3.copy())
+                    got3 = np.asarray(res3[1], dtype=float)
+                    _, nw3 = midpoint_widths(nat3)
+                    for i in range(n):
+                        if lo_all[i] < nat3[0] - nw3[0] / 2 or hi_all[i] > nat3[-1] + nw3[-1] / 2:
+                            continue                        # not (wholly) covered: no value is prescribed
+                        val, _, tot, _, _ = overlap_mean(nat3 - nw3 / 2, nat3 + nw3 / 2, f3, lo_all[i], hi_all[i])
+                        if tot > 1e-9 * (hi_all[i] - lo_all[i]) and (got3.shape != (n,) or not close(got3[i], val, rtol=1e-9)):
+                            out.fail('binner-partial-coverage@%dcol' % case['cols'], 'native grid starting at %.6g: bin %d [%.6g, %.6g] gives %r, its overlap mean is %r'
+                                     % (nat3[0], i, lo_all[i], hi_all[i], got3[i] if got3.shape == (n,) else got3.shape, val))
+                            break
     except CutError:
         pass
     finally:
